@@ -23,6 +23,14 @@ class LogCollector(DataCollector):
 _tokens = [0]
 
 
+class Notice(Event):
+    """a user-defined kind of event"""
+
+
+class Shipment(DelayedEvent):
+    """a user-defined kind of delayed event"""
+
+
 class LogAgent(Agent):
     def initialize(self):
         _tokens[0] += 1
@@ -46,9 +54,10 @@ class LogAgent(Agent):
         for (snd, rcv, delay, uid) in m.script.get("send", {}).get(str(k), []):
             if snd == self.id:
                 if delay is None:
-                    ev = Event("ping", self.id, rcv, data=uid)
+                    ev = (Event if uid % 3 else Notice)("ping", self.id, rcv, data=uid)
                 else:
-                    ev = DelayedEvent("pong", self.id, rcv, delay, data=uid)
+                    # user-defined subclasses of the event classes are events, too
+                    ev = (DelayedEvent if uid % 3 else Shipment)("pong", self.id, rcv, delay, data=uid)
                 m.log.append(("sent", self.id, rcv, uid, k, delay))
                 m.enqueue_event(ev)
         # scripted population changes from inside act: script["act"][k] = {agent id: [ops]}
